@@ -1,0 +1,9 @@
+//go:build !verif
+
+package tmstate
+
+import "github.com/gordian-engine/gordian/tm/tmengine/internal/tmstate/internal/tsi"
+
+func verifSMTrace(*StateMachine, string, *tsi.RoundLifecycle) {}
+
+func verifRTGate(*StandardRoundTimer, string) {}
